@@ -11,3 +11,109 @@ Theorem C29_parse_is_fold_over_list_elements : forall st v,
   map fst (pairs_of v) = list_items 44 v.
 Proof. exact (fun st v => conj (cc_parse_from_fold st v) (pairs_of_items v)). Qed.
 Print Assumptions C29_parse_is_fold_over_list_elements.
+
+(* on quote-free text the elements are the comma-split, OWS-trimmed, non-empty pieces (HopProofs) *)
+Theorem C29_elements_are_comma_split : forall v, simple v = true -> list_items 44 v = ref_items v.
+Proof. exact list_items_is_ref. Qed.
+Print Assumptions C29_elements_are_comma_split.
+
+(* httpHeaderParseInt(p) and httpHeaderParseQuotedString(p, len) get a pointer into the whole value; what
+   they compute depends on the element only *)
+Theorem C29_argument_reads_are_local : forall v, Forall (fun p => forall st,
+  cc_step st (fst p) (snd p) = cc_step st (fst p) (fst p)) (pairs_of v).
+Proof. exact pairs_local. Qed.
+Print Assumptions C29_argument_reads_are_local.
+
+(* MAIN 1: for ALL values, the parsed object is the first-match specification over the elements:
+   mask = directives present; numeric members = first non-negative int that fits; max-stale = first occurrence
+   (valueless form when its argument is not such an int); private / no-cache texts = first (valid) occurrence;
+   other = unknown elements joined by ", " *)
+Theorem C29_parse_exact : forall v, cc_parse v = Some (spec_cc (list_items 44 v)).
+Proof. exact cc_parse_exact. Qed.
+Print Assumptions C29_parse_exact.
+
+(* a numeric directive is only ever stored with a non-negative value that fits an int *)
+Theorem C29_numeric_value_fits : forall it n, d_num it = Some n -> (0 <= n < 2147483648)%Z.
+Proof. exact d_num_range. Qed.
+Print Assumptions C29_numeric_value_fits.
+
+(* MAIN 2: invalid numeric values are treated as absent *)
+Theorem C29_invalid_numeric_absent : forall v F st,
+  cc_parse v = Some st -> strict_numeric F ->
+  (forall it, In it (list_items 44 v) -> d_type it = F -> d_num it = None) ->
+  isSet st F = false /\ get_num st F = (-1)%Z.
+Proof. exact cc_invalid_numeric_absent. Qed.
+Print Assumptions C29_invalid_numeric_absent.
+
+(* max-stale: the first occurrence decides; an invalid argument leaves the valueless form *)
+Theorem C29_max_stale_invalid_is_valueless : forall v st it,
+  cc_parse v = Some st ->
+  find (fun i => d_type i =? CC_MAX_STALE) (list_items 44 v) = Some it ->
+  isSet st CC_MAX_STALE = true /\
+  max_stale st = match d_num it with Some n => n | None => MAX_STALE_ANY end.
+Proof. exact cc_max_stale_first. Qed.
+Print Assumptions C29_max_stale_invalid_is_valueless.
+
+(* quoted arguments: exact on plain text (no backslash, HTAB, CR, LF, CTL), whatever follows the closing quote *)
+Theorem C29_quoted_plain_exact_partial : forall X junk,
+  forallb qd_char X = true -> forallb (fun c => negb (c =? 9)) X = true ->
+  let arg := 34 :: X ++ 34 :: junk in
+  rfc_unquote arg = Some X /\ parse_quoted_string arg (lenN arg) = QOk X.
+Proof. exact qs_plain_exact_partial. Qed.
+Print Assumptions C29_quoted_plain_exact_partial.
+
+(* ... and refuted at full strength: quoted-pairs of DQUOTE / backslash, and HTAB *)
+Theorem C29_quoted_pair_unescape_refuted :
+  exists arg t, rfc_unquote arg = Some t /\ parse_quoted_string arg (lenN arg) <> QOk t /\
+                parse_quoted_string arg (lenN arg) = QOk [97].
+Proof. exact quoted_pair_refuted. Qed.
+Print Assumptions C29_quoted_pair_unescape_refuted.
+
+Theorem C29_quoted_backslash_unescape_refuted :
+  exists arg t, rfc_unquote arg = Some t /\ parse_quoted_string arg (lenN arg) <> QOk t /\
+                parse_quoted_string arg (lenN arg) = QOk [97; 98].
+Proof. exact quoted_backslash_refuted. Qed.
+Print Assumptions C29_quoted_backslash_unescape_refuted.
+
+Theorem C29_htab_in_quoted_string_refuted :
+  exists arg t, rfc_unquote arg = Some t /\ parse_quoted_string arg (lenN arg) = QFail.
+Proof. exact htab_refuted. Qed.
+Print Assumptions C29_htab_in_quoted_string_refuted.
+
+Theorem C29_parse_quoted_pair_refuted :
+  exists v st t, cc_parse v = Some st /\ d_arg v = Some wit_qpair /\ rfc_unquote wit_qpair = Some t /\
+                 isSet st CC_PRIVATE = true /\ private_ st <> t /\ private_ st = [97].
+Proof. exact cc_quoted_pair_refuted. Qed.
+Print Assumptions C29_parse_quoted_pair_refuted.
+
+Theorem C29_parse_htab_refuted :
+  exists v st t, cc_parse v = Some st /\ d_arg v = Some wit_htab /\ rfc_unquote wit_htab = Some t /\
+                 isSet st CC_NO_CACHE = false /\ cc_ok st = false.
+Proof. exact cc_htab_refuted. Qed.
+Print Assumptions C29_parse_htab_refuted.
+
+(* ---- hypotheses are satisfiable / statements are not vacuous ---- *)
+(* max-age=5, private="Set-Cookie", no-store, foo, MAX-AGE=7 *)
+Definition ex_value : bytes :=
+  [109;97;120;45;97;103;101;61;53;44;32;112;114;105;118;97;116;101;61;34;83;101;116;45;67;111;111;107;105;101;34;44;32;
+   110;111;45;115;116;111;114;101;44;32;102;111;111;44;32;77;65;88;45;65;71;69;61;55].
+Example ex_parse_exact :
+  spec_cc (list_items 44 ex_value) =
+  mkcc 138 5 (-1) (-1) (-1) (-1) [83;101;116;45;67;111;111;107;105;101] [] [102;111;111].
+Proof. vm_compute. reflexivity. Qed.
+(* max-age=4294967396, s-maxage=-1 : both invalid, both absent *)
+Definition ex_invalid : bytes :=
+  [109;97;120;45;97;103;101;61;52;50;57;52;57;54;55;51;57;54;44;32;115;45;109;97;120;97;103;101;61;45;49].
+Example ex_invalid_hyp : forall it, In it (list_items 44 ex_invalid) -> d_type it = CC_MAX_AGE -> d_num it = None.
+Proof. vm_compute. intros it [<-|[<-|[]]] H; try reflexivity; discriminate. Qed.
+Example ex_invalid_items : map d_type (list_items 44 ex_invalid) = [CC_MAX_AGE; CC_S_MAXAGE].
+Proof. vm_compute. reflexivity. Qed.
+(* max-stale=abc *)
+Example ex_max_stale : exists it, find (fun i => d_type i =? CC_MAX_STALE)
+    (list_items 44 [109;97;120;45;115;116;97;108;101;61;97;98;99]) = Some it /\ d_num it = None.
+Proof. eexists. vm_compute. split; reflexivity. Qed.
+Example ex_plain : forallb qd_char [83;101;116;45;67;111;111;107;105;101;44;32;65;103;101] = true /\
+  forallb (fun c => negb (c =? 9)) [83;101;116;45;67;111;111;107;105;101;44;32;65;103;101] = true.
+Proof. vm_compute. split; reflexivity. Qed.
+Example ex_simple : simple [109;97;120;45;97;103;101;61;53;44;32;110;111;45;115;116;111;114;101] = true.
+Proof. vm_compute. reflexivity. Qed.
